@@ -55,6 +55,8 @@ Why == IF Ev.op = "free" THEN (IF Ev.live # 0 THEN {"leak"} ELSE {}) \cup (IF ~E
                   ELSE IF ~WellFormed(Real(Ev)) THEN {"image"}
                   ELSE IF Matching # {} /\ Abs(Real(Ev)) \notin Matching THEN {"image"} ELSE {})
             \cup (IF <<Ev.rsize, Ev.rgets, Ev.rwalk>> # <<Ev.size, Ev.gets, Ev.walk>> THEN {"reloc"} ELSE {})
+            \* two long-lived handles on the same region (calls alternate between them) observe the same
+            \cup (IF <<Ev.ssize, Ev.sgets, Ev.swalk>> # <<Ev.size, Ev.gets, Ev.walk>> THEN {"reloc"} ELSE {})
             \cup (IF ~Ev.guard_ok THEN {"guard"} ELSE {})
             \cup (IF Ev.ovl # 0 THEN {"overlap"} ELSE {}) \cup (IF Ev.bf # 0 THEN {"badfree"} ELSE {})
 \* ---- informational conformance: the transcription's next image from the previous real image ----
